@@ -861,6 +861,7 @@ int parity_write(struct snapraid_parity_handle* handle, block_off_t pos, unsigne
 	if (!split) {
 		/* LCOV_EXCL_START */
 		log_fatal("Writing parity data outside range at extra offset %" PRIu64 ".\n", offset);
+		errno = ENXIO; /* the callers check errno */
 		return -1;
 		/* LCOV_EXCL_STOP */
 	}
@@ -874,6 +875,9 @@ int parity_write(struct snapraid_parity_handle* handle, block_off_t pos, unsigne
 	write_ret = pwrite(split->f, block_buffer, block_size, offset);
 	if (write_ret != (ssize_t)block_size) { /* conversion is safe because block_size is always small */
 		/* LCOV_EXCL_START */
+		/* a short write doesn't set errno, and it happens when the space is exhausted */
+		if (write_ret >= 0)
+			errno = ENOSPC;
 		if (errno == ENOSPC) {
 			log_fatal("Failed to grow parity file '%s' using write due lack of space.\n", split->path);
 		} else {
@@ -908,6 +912,7 @@ int parity_read(struct snapraid_parity_handle* handle, block_off_t pos, unsigned
 	if (!split) {
 		/* LCOV_EXCL_START */
 		out("Reading parity data outside range at extra offset %" PRIu64 ".\n", offset);
+		errno = ENXIO; /* the callers check errno */
 		return -1;
 		/* LCOV_EXCL_STOP */
 	}
@@ -918,6 +923,7 @@ int parity_read(struct snapraid_parity_handle* handle, block_off_t pos, unsigned
 	if (offset + block_size > split->valid_size) {
 		/* LCOV_EXCL_START */
 		out("Missing data reading file '%s' at offset %" PRIu64 " for size %u.\n", split->path, offset, block_size);
+		errno = ENXIO; /* the callers check errno */
 		return -1;
 		/* LCOV_EXCL_STOP */
 	}
@@ -935,6 +941,8 @@ int parity_read(struct snapraid_parity_handle* handle, block_off_t pos, unsigned
 		}
 		if (read_ret == 0) {
 			/* LCOV_EXCL_START */
+			/* errno is not set at the end of the file */
+			errno = ENXIO;
 			out("Unexpected end of file '%s' at offset %" PRIu64 ". %s.\n", split->path, offset, strerror(errno));
 			return -1;
 			/* LCOV_EXCL_STOP */
